@@ -96,6 +96,7 @@ pub fn meta(prop: Prop) -> Meta {
             assumptions: &[
                 "the reference model delegates single-payload parsing to the real parse_tls_record_with_header (refinement of accumulation, not of payload decoding)",
                 "heartbeat accumulations longer than 65535 bytes are unconstrained (no single-record counterpart): model comparison is suspended until the next reset()",
+                "hand-built records parse_tls_raw_record cannot produce (header length at odds with the data, more than 2^14+256 data bytes) are unconstrained until the next reset(); error kinds are compared for the three refusals the statement names and for the completing call only; a truncated alert / ChangeCipherSpec record on an idle parser may answer Incomplete or a rejection",
                 "sampled histories: a clean batch is evidence, not proof",
             ],
         },
@@ -149,6 +150,7 @@ pub fn meta(prop: Prop) -> Meta {
             assumptions: &[
                 "strict oracle only on packings for which the crate promises delivery (complete same-type messages per record); malformed inputs are constructed with certain verdicts, never guessed from random corruption",
                 "an empty remainder is compared by length only (it has no bytes whose address could matter)",
+                "the value oracle runs on RFC-valid messages (gen::rfc_valid: vector bounds, assigned enum values, structurally valid digitally-signed / key-exchange / OCSP bodies), one time in three with the inner structure real traffic carries; arbitrary bytes in those fields are exercised by the worlds that have no value oracle (C01, C07, C08)",
             ],
         },
         Prop::C08 => Meta {
@@ -160,7 +162,7 @@ pub fn meta(prop: Prop) -> Meta {
             stub: &["client / server peers (flow grammar walk)", "message-level fault layer", "per-direction latency / tap ordering on the simulated clock", "reference flow acceptor", "message constructors"],
             assumptions: &[
                 "the reference acceptor is a transcription of the documented flows and of the property statement (limited independence: not a second implementation by another author)",
-                "where the statement's two universal clauses collide (state Finished + HelloRequest) 'Finished always moves to Invalid' takes precedence",
+                "steps the statement leaves open are followed, not judged (counter oracle/steps_the_statement_leaves_open): ChangeCipherSpec from the peer the flow does not have send it, HelloRequest sent by the client or arriving in state Finished, CertificateStatus not followed by ServerKeyExchange, the client's ChangeCipherSpec of a resumed session; after such a step the conversation stays under the acceptor only if the implementation landed where the corresponding flow continues",
                 "message content is sampled within each kind; the 25 x 2 x 23 cell coverage is measured and reported, not guaranteed",
             ],
         },
@@ -174,6 +176,7 @@ pub fn meta(prop: Prop) -> Meta {
             assumptions: &[
                 "values are drawn within the stated wire limits (session id absent or 1..32 bytes, SSLv3 ServerHello without extension block, draft-18 form with version 0x7f12, records within the record cap)",
                 "faulty sink oracle is deliberately narrow: the call may fail; only 'Ok => the sink holds the complete fault-free encoding' is required",
+                "extension values stay inside the RFC vector bounds (names and lists non-empty, max-fragment codes 1..4); a record payload above 2^14 bytes may be refused (if it is serialized, all oracles apply); kinds outside the statement's list that answer Ok are held to 'parses back to the same value' only",
             ],
         },
         Prop::C10 => Meta {
@@ -185,7 +188,7 @@ pub fn meta(prop: Prop) -> Meta {
             stub: &["DTLS sender (flights, MTU fragmentation, retransmit timers)", "simulated clock / event queue", "datagram network (loss, dup, reorder, truncate)", "reference RFC encoder", "reference 13-byte framer", "harness reassembler (consumes only parser output)"],
             assumptions: &[
                 "the parser is stateless: loss/dup/reorder cannot change what one datagram decodes to; their role is to generate (offset, length, seq, epoch, MTU) combinations and to make the conservation oracle bite when a header field is returned wrong",
-                "unfragmented messages of kinds the property does not list are unconstrained (records containing one are excluded from the sender-side truth table)",
+                "unfragmented messages of kinds the property does not list are unconstrained (records containing one are excluded from the sender-side truth table); listed kinds carry RFC-valid values; stray fragments use assigned handshake types",
                 "bounded liveness is checked as conservation at the end of the history: every message all of whose bytes were delivered in fragments is reassembled from parser output",
             ],
         },
